@@ -331,11 +331,11 @@ def decode_body(short, vals, meta):
     """exactlen_honour / exactlen_fault: len:u64 | 4 x (kind:u8 n:u64)"""
     if not short.startswith("exactlen_"):
         return None
-    faulty = short.endswith("fault")
+    faulty = "fault" in short
     r = Reader(vals)
     length = r.u64()
     evs = []
-    for _ in range(4):
+    for _ in range(6 if short.endswith("6") else 4):
         kind, n = r.u8(), r.u64()
         k = EV_KINDS_FAULTY[kind % 4] if faulty else EV_KINDS_HONOUR[kind % 3]
         ev = {"k": k}
